@@ -118,6 +118,22 @@ let () =
            | 0 -> let w1 = nat_of_int (next ()) in let w2 = nat_of_int (next ()) in let w3 = nat_of_int (next ()) in Parse (w1, w2, w3)
            | 1 -> Write | 2 -> DropMemory | _ -> DeleteDisk) in
          print_endline (String.concat " " (List.map (fun (c, v) -> Printf.sprintf "%d:%d" (int_of_nat c) (int_of_nat v)) (cache_run fa fb ops)))
+       | "refactor" ->
+         (* v text nmaps (path string)* : refactor the model's own recovering parse of text *)
+         let v = nextn () in let s = str () in
+         let n = next () in
+         let maps = List.init n (fun _ -> let pl = next () in let path = List.init pl (fun _ -> next ()) in let r = str () in (path, r)) in
+         let m (q : nat list) = let qi = List.map int_of_nat q in (try Some (List.assoc qi maps) with Not_found -> None) in
+         (match parse_text v Recover N0 s with
+          | OTree t -> print_endline (pstr (refactor m t))
+          | _ -> print_endline "ERR")
+       | "issues" ->
+         (* kind n (code line col)* : kind 0 = Normalizer.add_issue store, 1 = ErrorFinder per-line dict *)
+         let kind = next () in let n = next () in
+         let xs = List.init n (fun i -> let c = nat_of_int (next ()) in let l = nat_of_int (next ()) in let co = nat_of_int (next ()) in
+                                  { i_code = c; i_line = l; i_col = co; i_msg = nat_of_int i }) in
+         let res = if kind = 0 then List.fold_left add_issue [] xs else finalize (List.fold_left err_add [] xs) in
+         print_endline (String.concat ";" (List.map (fun x -> Printf.sprintf "%d %d %d %d" (int_of_nat x.i_code) (int_of_nat x.i_line) (int_of_nat x.i_col) (int_of_nat x.i_msg)) res))
        | "plans" ->
          let v = nextn () in
          print_endline (String.concat "|" (List.map (fun (q, tr) ->
